@@ -154,6 +154,9 @@ type world struct {
 	limitPrev   map[string]bool   // limit conditions present at the previous observation, if that one was drained
 	gapPrev     [maxAccounts]bool // account's pending list was gapped at the previous observation
 	lowered     [maxAccounts]bool // the reorg that just ran lowered this account's state nonce
+	allAccts    []int
+	rpcAccts    []int             // accounts whose owner uses this node's RPC (AddLocal/AddLocals)
+	gapSeen     [maxAccounts]bool // a gap was reported for the account since the last executed reset
 }
 
 func runC20(r *kit.Run) {
@@ -187,14 +190,21 @@ func newWorld(r *kit.Run) *world {
 		Lifetime:     lifetimes[c.Weighted("lifetime", []int{4, 3, 2, 1})],
 		NoLocals:     c.Chance("nolocals", 1, 8),
 	}
-	// half of the runs have a global queue that non-local accounts alone can never overflow
-	if c.Chance("small-global-queue", 1, 2) {
+	// two thirds of the runs have a global queue that non-local accounts alone can never overflow
+	// (a run ends at the first reorg that may have truncated the queue, see oracle.go)
+	if c.Chance("small-global-queue", 1, 3) {
 		w.cfg.GlobalQueue = uint64(c.Range("global-queue", 2, 12))
 	} else {
 		w.cfg.GlobalQueue = uint64(w.nAcc)*w.cfg.AccountQueue + 1
 	}
 	if c.Chance("preset-local", 1, 6) {
 		w.cfg.Locals = []common.Address{addrs[c.Intn("preset-local-acct", w.nAcc)]}
+	}
+	for i := 0; i < w.nAcc; i++ {
+		w.allAccts = append(w.allAccts, i)
+		if c.Chance("rpc-account", 1, 3) {
+			w.rpcAccts = append(w.rpcAccts, i)
+		}
 	}
 	w.floor = w.cfg.PriceLimit
 	w.maxHold = c.Range("max-hold", 1, 5)
@@ -229,8 +239,8 @@ func newWorld(r *kit.Run) *world {
 	for _, a := range w.cfg.Locals {
 		locs = append(locs, w.an(a))
 	}
-	r.Logf("config accounts=%d AccountSlots=%d GlobalSlots=%d AccountQueue=%d GlobalQueue=%d Lifetime=%v PriceLimit=%d PriceBump=%d NoLocals=%v Locals=%v maxHold=%d",
-		w.nAcc, w.cfg.AccountSlots, w.cfg.GlobalSlots, w.cfg.AccountQueue, w.cfg.GlobalQueue, w.cfg.Lifetime, w.cfg.PriceLimit, w.cfg.PriceBump, w.cfg.NoLocals, locs, w.maxHold)
+	r.Logf("config accounts=%d AccountSlots=%d GlobalSlots=%d AccountQueue=%d GlobalQueue=%d Lifetime=%v PriceLimit=%d PriceBump=%d NoLocals=%v Locals=%v rpcAccounts=%v maxHold=%d",
+		w.nAcc, w.cfg.AccountSlots, w.cfg.GlobalSlots, w.cfg.AccountQueue, w.cfg.GlobalQueue, w.cfg.Lifetime, w.cfg.PriceLimit, w.cfg.PriceBump, w.cfg.NoLocals, locs, w.rpcAccts, w.maxHold)
 	r.Logf("genesis %s gasLimit=150000: %s", gen.name, strings.Join(desc, " "))
 
 	w.pool = core.NewTxPool(w.cfg, w.chain) // tx_pool.go:210, as you/backend.go does
@@ -306,6 +316,9 @@ func (w *world) run() {
 		if w.dead {
 			return
 		}
+		if w.tainted {
+			break
+		}
 		// schedule decision: does the parked reorg run before the next foreground operation?
 		for w.parked != nil {
 			if held < w.maxHold && c.Chance("hold-reorg", 1, 3) {
@@ -316,6 +329,12 @@ func (w *world) run() {
 			}
 			held = 0
 			w.release("")
+			if w.tainted {
+				break
+			}
+		}
+		if w.tainted {
+			break
 		}
 		if w.parked == nil {
 			held = 0
@@ -375,6 +394,7 @@ func (w *world) release(why string) {
 	w.gate.ch <- struct{}{}
 	w.lowered = [maxAccounts]bool{}
 	if run.reset != nil {
+		w.gapSeen = [maxAccounts]bool{}
 		for i := 0; i < w.nAcc; i++ {
 			w.lowered[i] = run.reset.nonce[i] < w.poolHead.nonce[i]
 		}
@@ -423,13 +443,24 @@ func (w *world) opAdd() {
 	if len(w.ops) >= 3 && (api == 1 || api == 2 || api == 3) {
 		api = 0
 	}
+	// RPC users submit for their own accounts only: the local APIs are used for a per-run
+	// subset of the accounts, so that the other accounts stay non-local for the whole run
+	// and the limits (which exempt locals) keep being checked on them.
+	from := w.allAccts
+	if api == 1 || api == 2 {
+		if len(w.rpcAccts) == 0 {
+			api = 0
+		} else {
+			from = w.rpcAccts
+		}
+	}
 	n := 1
 	if api == 0 || api == 2 || api == 3 {
 		n = 1 + c.Weighted("batch", []int{6, 3, 2, 1, 1})
 	}
 	var txs []*txrec
 	for i := 0; i < n; i++ {
-		txs = append(txs, w.gen.gen())
+		txs = append(txs, w.gen.gen(from))
 	}
 	apiName := []string{"AddRemotes", "AddLocal", "AddLocals", "AddRemotesSync", "AddRemote"}[api]
 	w.opSerial++
